@@ -827,12 +827,12 @@ func TestVerifC05(t *testing.T) {
 	larges := mc.Pick(
 		[]lg{{64, 2, 3}, {64, 3, 2}, {64, 1, 1}, {65, 2, 4}, {96, 1, 2}},
 		[]lg{{64, 2, 3}, {64, 3, 2}, {64, 1, 1}, {65, 2, 4}, {96, 1, 2}, {96, 2, 5}, {130, 1, 3}, {64, 2, 5}, {96, 3, 4}, {64, 2, 64}, {65, 1, 100}})
-	exactCap := int64(mc.Pick(5000, 300000))
+	exactCap := int64(mc.Pick(4200, 300000))
 	boundedCap := int64(mc.Pick(60000, 200000))
 	largeRegimes := make([]string, len(larges))
 	c05Parallel(len(larges), func(i int) {
 		l := larges[i]
-		for _, fl := range []int{0, 2} { // without / with SampleKeepSingle (must not matter for a multi-row group)
+		for _, fl := range mc.Pick([]int{0}, []int{0, 2}) { // thorough: also with SampleKeepSingle (must not matter for a multi-row group)
 			c := &c05Case{flags: fl, budget: l.budget, largeN: l.n, largeSize: l.size, maxGrid: 400}
 			lr := c05CheckLarge(c, metas[0], exactCap, boundedCap)
 			mu.Lock()
